@@ -47,7 +47,7 @@ pub fn parse_wopts(spec: &str) -> usvg::WriteOptions {
 
 const KEEP: &[&str] = &[
     "id", "clip-path", "mask", "fill", "stroke", "filter", "in", "in2", "result", "font-size", "text-decoration",
-    "gradientUnits", "patternUnits", "style",
+    "gradientUnits", "patternUnits", "style", "x", "y", "width", "height",
 ];
 
 /// attributes whose value is a number or a list of numbers
